@@ -228,6 +228,8 @@ def expr_str(e):
         return '(%d)' % e['v']
     if e['t'] == 'bin':
         return '(%s %s %s)' % (expr_str(e['l']), e['op'], expr_str(e['r']))
+    if e['t'] == 'asarr':
+        return 'np.asarray(%s)' % expr_str(e['e'])
     if e['t'] == 'where':
         return 'np.ma.where(%s, %s, %s)' % (expr_str(e['c']),
                                             expr_str(e['x']),
@@ -660,6 +662,13 @@ def _gen_step(rnd, sh, src, shadows, focus=None, strict=False):
                     'x': rexpr(depth - 1), 'y': rexpr(depth - 1)}
         a['assign'] = [{'name': 'NEW%d' % i, 'e': rexpr(2)}
                        for i in range(rnd.randint(1, 2))]
+        # the plain-array view of an unmasked variable (np.asarray(A)): the
+        # same values, but eval receives an ndarray instead of a variable
+        plain = [k for k in vs
+                 if not getattr(sh, 'masked', {}).get(k, True)]
+        if plain and rnd.random() < 0.2:
+            a['assign'][0]['e'] = {'t': 'asarr', 'e': {
+                't': 'var', 'k': rnd.choice(plain)}}
         a['copyall'] = rnd.random() < 0.5
         # pncexpr(expr, file): all variables are kept
         if a['copyall'] and rnd.random() < 0.4:
